@@ -124,6 +124,9 @@ func init() {
 			}
 			return tuple{"", false}
 		},
+		// package time's initialiser asks for a debug setting that only its timer code reads
+		"internal/godebug.New": func(fr *frame, args []value) value { return (*value)(nil) },
+		"time.runtimeNano": func(fr *frame, args []value) value { return int64(1) },
 		"os.Environ": func(fr *frame, args []value) value {
 			// "key=value" for every variable of the modelled environment, in a fixed order;
 			// values may have symbolic bytes
